@@ -206,6 +206,13 @@ func canSucceed1(r *ssa.Return) bool {
 	if v == nil {
 		return true
 	}
+	// the operand itself was tested: `if err != nil { return ..., err }`
+	if _, isConst := v.(*ssa.Const); !isConst {
+		vv := v
+		if g, n := guardedBy(r, cmpFact(func(x ssa.Value) bool { return x == vv }, token.NEQ, vNil(), "")); n > 0 && g {
+			return false
+		}
+	}
 	// `err = f(); if err != nil { return ..., err }` with err a result cell:
 	// the operand is a load of the cell; it is non-nil when the return is
 	// reachable only through a `!= nil` test on a load of the same cell.
@@ -281,9 +288,9 @@ func guardedSite(s VSite, alts ...FP) (bool, int) {
 		chain = append(chain, s.Ctx[i])
 	}
 	for _, in := range chain {
-		cut := factEdgesAlts(in.Parent(), 0, alts...)
-		total += len(cut)
-		if len(cut) > 0 && !reachable(in.Parent(), nil, cut)[in.Block()] {
+		ok, n := guardedLocal(in, 0, alts...)
+		total += n
+		if ok {
 			return true, total
 		}
 	}
@@ -453,6 +460,12 @@ func argOf(c ssa.CallInstruction, i int) ssa.Value {
 func namedArg(c ssa.CallInstruction, name string) ssa.Value {
 	cc := c.Common()
 	sig := cc.Signature()
+	// a static callee known on the reference tree: the parameter that had this name there
+	if !cc.IsInvoke() {
+		if i := refParamIndex(cc.StaticCallee(), name); i >= 0 && i < len(cc.Args) {
+			return cc.Args[i]
+		}
+	}
 	off := 0
 	if !cc.IsInvoke() && sig.Recv() != nil {
 		off = 1
@@ -515,6 +528,34 @@ func compositeFields(v ssa.Value) map[string]ssa.Value {
 		}
 	case *ssa.MakeInterface:
 		return compositeFields(x.X)
+	case *ssa.Call:
+		// literal built by a virtually inlined constructor helper: its fields,
+		// with the helper's parameters replaced by this call's arguments
+		h := x.Call.StaticCallee()
+		if !isNewHelper(h) || h.Signature.Results().Len() != 1 {
+			return nil
+		}
+		var out map[string]ssa.Value
+		for _, r := range returns(h) {
+			if len(r.Results) != 1 {
+				return nil
+			}
+			f := compositeFields(retOperand(r, 0))
+			if f == nil || out != nil {
+				return nil // not a literal, or more than one returning literal
+			}
+			out = f
+		}
+		for k, fv := range out {
+			if p, isP := fv.(*ssa.Parameter); isP {
+				for i, hp := range h.Params {
+					if hp == p && i < len(x.Call.Args) {
+						out[k] = x.Call.Args[i]
+					}
+				}
+			}
+		}
+		return out
 	}
 	if al == nil {
 		return nil
@@ -543,18 +584,42 @@ func compositeFields(v ssa.Value) map[string]ssa.Value {
 type Incoming struct {
 	Val       ssa.Value
 	Pred, Blk *ssa.BasicBlock
+	Ret       *ssa.Return // the value is returned here by a virtually inlined helper
+}
+
+// hasFact reports whether fp holds whenever the value is selected this way.
+func (inc Incoming) hasFact(fp FP) bool {
+	if inc.Ret != nil {
+		ok, n := guardedBy(inc.Ret, fp)
+		return n > 0 && ok
+	}
+	return edgeHasFact(inc.Pred, inc.Blk, fp)
 }
 
 // incomings lists the ways a phi value can be selected (one level: a nested
-// phi is reported as a leaf with the edge over which it arrives).
+// phi is reported as a leaf with the edge over which it arrives).  The result
+// of a virtually inlined single-result helper is expanded into its returns.
 func incomings(v ssa.Value) []Incoming {
+	if call, ok := v.(*ssa.Call); ok {
+		if h := call.Call.StaticCallee(); isNewHelper(h) && h.Signature.Results().Len() == 1 {
+			var out []Incoming
+			for _, r := range returns(h) {
+				if len(r.Results) == 1 {
+					out = append(out, Incoming{Val: retOperand(r, 0), Ret: r})
+				}
+			}
+			if len(out) > 0 {
+				return out
+			}
+		}
+	}
 	phi, ok := v.(*ssa.Phi)
 	if !ok {
-		return []Incoming{{v, nil, nil}}
+		return []Incoming{{Val: v}}
 	}
 	var out []Incoming
 	for i, e := range phi.Edges {
-		out = append(out, Incoming{e, phi.Block().Preds[i], phi.Block()})
+		out = append(out, Incoming{Val: e, Pred: phi.Block().Preds[i], Blk: phi.Block()})
 	}
 	return out
 }
